@@ -1,6 +1,7 @@
 """C10 - only validation / schema-parse errors escape; no crash on any JSON input."""
 import copy
 import json
+import os
 
 from vlib import gen_schemas as gs
 from vlib import gen_values as gv
@@ -688,9 +689,67 @@ def work_is_bounded(ctx, sut, only=None):
                 break
 
 
+def documented_recipes(ctx, sut):
+    """Usages the documentation recommends around the same calls: a generated model extended in a subclass with
+    Python's attribute hooks, and the command line pointed INSIDE a document (`file.json#/pointer`). The
+    contract is the same: a result, or an error of the library's own families."""
+    if ctx.shard % 4 != 0:
+        return
+    base = sut.parse_direct({"type": "object", "title": "Recipe", "properties": {"a": {"type": "integer"}},
+                             "required": ["a"]})
+
+    class Extended(base):  # pylint: disable=too-few-public-methods
+        def __getattr__(self, name):
+            # additional members readable as attributes too
+            try:
+                return self[name]
+            except KeyError:
+                raise AttributeError(name) from None
+
+        def total(self):
+            return self.a
+
+    for value in ({"a": 1}, {"a": 1, "extra": 2}, {}, {"a": "x"}, [], None, {"a": 10 ** 30}):
+        ctx.evaluation()
+        ctx.count("recipes.subclass_with_getattr")
+        outcome, _res, exc = sut.call(Extended, copy.deepcopy(value))
+        if outcome not in ("ok", "ValidationError", "TypeError"):
+            ctx.witness("escape." + outcome, {"site": "recipe_getattr", "value": value},
+                        f"{type(exc).__name__} escaped a model subclass that defines __getattr__: {exc!r}"[:400])
+            break
+    from statham.__main__ import main  # pylint: disable=import-outside-toplevel
+
+    docs = {
+        "no_definitions": {"type": "object", "title": "Doc", "properties": {
+            "inner": {"type": "object", "title": "Inner", "properties": {"n": {"type": "integer"}}}}},
+        "with_definitions": {"type": "object", "title": "Doc2", "properties": {"inner": {"$ref": "#/definitions/in"}},
+                             "definitions": {"in": {"type": "object", "title": "In", "properties": {"n": {"type": "integer"}}}}},
+    }
+    for label, doc in docs.items():
+        path = os.path.join(ctx.tmpdir(), f"c10_recipe_{ctx.shard}_{label}.json")
+        with open(path, "w", encoding="utf8") as handle:
+            json.dump(doc, handle)
+        try:
+            for pointer in ("", "#/", "#/properties/inner", "#/definitions/in" if "definitions" in doc else "#/properties"):
+                ctx.evaluation()
+                ctx.count("recipes.cli_pointer")
+                try:
+                    main(path + pointer)
+                except BaseException as exc:  # pylint: disable=broad-except
+                    if isinstance(exc, (KeyboardInterrupt, SystemExit)):
+                        raise
+                    outcome = sut.outcome_class(exc)
+                    if outcome not in ("SchemaParseError", "FeatureNotImplementedError"):
+                        ctx.witness("parse_escape." + outcome, {"site": "recipe_cli_pointer", "doc": doc, "pointer": pointer},
+                                    f"{type(exc).__name__} escaped the command line's entry point for {pointer!r}: {exc!r}"[:400])
+        finally:
+            os.remove(path)
+
+
 def run_shard(ctx):
     from vlib import sut  # pylint: disable=import-outside-toplevel
 
+    documented_recipes(ctx, sut)
     work_is_bounded(ctx, sut)
     beyond_str_limit(ctx, sut)
     beyond_str_limit_in_schema(ctx, sut)
@@ -704,6 +763,10 @@ def replay(case, ctx):
     from vlib import sut  # pylint: disable=import-outside-toplevel
 
     schema = case.get("schema")
+    if str(case.get("site", "")).startswith("recipe_"):
+        ctx.shard = 0
+        documented_recipes(ctx, sut)
+        return
     if case.get("site") == "work":
         work_is_bounded(ctx, sut, only=[case["depth"], case["member_defaults"]])
         return
